@@ -4,7 +4,13 @@
    run_refines  : hence every history of collection operations executed by the sequential
                   interpreter from the initial state follows an abstract run of the specification;
    corollaries  : reachable_bounds (C05), step_safe (C15), step_regs_frame (C04),
-                  clone_allocates_nothing (C10), maps_unobservable (C14).
+                  clone_allocates_nothing (C10), maps_unobservable (C14);
+   specification facts (Section SpecFacts, no model): spec_err_frame, det_op / spec_det (the specification is a
+                  function of the abstract state for every operation but `==`; SSZ decoding included, for
+                  inputs below 4 GiB), spec_det_eq, and the reading of the decoders' specification:
+                  spec_ssz_list_err / spec_ssz_vec_err (EDecode only if no admissible preimage),
+                  spec_ssz_list_iff / spec_ssz_vec_iff (success iff admissible preimage, and exactly it),
+                  spec_det_ssz_list / spec_det_ssz_vec.
    Proof file; no model code. *)
 From Coq Require Import FMapPositive.
 From MH Require Import Inv IfaceP IterP IntraP WulP RepeatP CollCtorP CollObsP HashP CodecP SysInv RefineBase RefineA RefineB.
@@ -76,9 +82,86 @@ Section SpecFacts.
   Qed.
 
   (* operations whose specification is a function of the abstract state: all but `==` (free on dirty
-     handles) and the two SSZ decoders (which may always refuse) *)
+     handles); the two SSZ decoders for inputs below 4 GiB (the specification of decoding is complete
+     below the limit of the 4-byte offsets, which matters for variable-size kinds only; the bound is
+     imposed for all kinds so that det_op depends on the operation alone) *)
   Definition det_op (o : op) : bool :=
-    match o with OEq _ _ | OSszList _ _ | OSszVec _ _ => false | _ => collection_op o end.
+    match o with
+    | OEq _ _ => false
+    | OSszList _ b | OSszVec _ b => lenN b <? 2 ^ 32
+    | _ => collection_op o
+    end.
+
+  (* ---------- the specification of SSZ decoding, read off Spec.spec_ok ---------- *)
+  (* the answer EDecode is allowed only when there is no admissible preimage (below the offset limit) *)
+  Lemma spec_ssz_list_err (a : sregs) d b e a' : (d < nregs)%nat -> spec_ok a (OSszList d b) (RErr e) a' ->
+    e = EDecode /\ a' = a /\
+    ~ exists l, serialize ek l = b /\ Forall valid l /\ lenN l <= capN /\ (efixed ek = None -> lenN b < 2 ^ 32).
+  Proof.
+    intros Hd. cbn [Spec.spec_ok]. destruct (Nat.leb_spec nregs d) as [Hle|_]; [lia|].
+    intros [[(l & _ & _ & _ & D & _)|[E ->]] C]; [discriminate D|]. injection E as ->.
+    split; [reflexivity|]. split; [reflexivity|].
+    intros (l & Es & Hv & Hl & H32). destruct (C H32 l Es Hv Hl) as [D _]. discriminate D.
+  Qed.
+  Lemma spec_ssz_vec_err (a : sregs) d b e a' : (d < nregs)%nat -> spec_ok a (OSszVec d b) (RErr e) a' ->
+    e = EDecode /\ a' = a /\
+    ~ exists l, serialize ek l = b /\ Forall valid l /\ lenN l = capN /\ (efixed ek = None -> lenN b < 2 ^ 32).
+  Proof.
+    intros Hd. cbn [Spec.spec_ok]. destruct (Nat.leb_spec nregs d) as [Hle|_]; [lia|].
+    intros [[(l & _ & _ & _ & D & _)|[E ->]] C]; [discriminate D|]. injection E as ->.
+    split; [reflexivity|]. split; [reflexivity|].
+    intros (l & Es & Hv & Hl & H32). destruct (C H32 l Es Hv Hl) as [D _]. discriminate D.
+  Qed.
+  (* decoding succeeds if and only if the input is the serialization of an in-bounds sequence of valid
+     values, and then stores exactly that sequence; otherwise it answers EDecode and changes nothing *)
+  Lemma spec_ssz_list_iff (a : sregs) d b r a' : (d < nregs)%nat -> (efixed ek = None -> lenN b < 2 ^ 32) ->
+    spec_ok a (OSszList d b) r a' ->
+    (r = ROk <-> exists l, serialize ek l = b /\ Forall valid l /\ lenN l <= capN) /\
+    (forall l, serialize ek l = b -> Forall valid l -> lenN l <= capN -> r = ROk /\ a' = aset a d (Some (clean_list l))) /\
+    (r = ROk \/ r = RErr EDecode /\ a' = a).
+  Proof.
+    intros Hd H32. cbn [Spec.spec_ok]. destruct (Nat.leb_spec nregs d) as [Hle|_]; [lia|].
+    intros [S C]. split; [|split; [exact (C H32)|]].
+    - split.
+      + intros ->. destruct S as [(l & Es & Hv & Hl & _)|[D _]]; [eauto|discriminate D].
+      + intros (l & Es & Hv & Hl). apply (C H32 l Es Hv Hl).
+    - destruct S as [(l & _ & _ & _ & -> & _)|[-> ->]]; auto.
+  Qed.
+  Lemma spec_ssz_vec_iff (a : sregs) d b r a' : (d < nregs)%nat -> (efixed ek = None -> lenN b < 2 ^ 32) ->
+    spec_ok a (OSszVec d b) r a' ->
+    (r = ROk <-> exists l, serialize ek l = b /\ Forall valid l /\ lenN l = capN) /\
+    (forall l, serialize ek l = b -> Forall valid l -> lenN l = capN -> r = ROk /\ a' = aset a d (Some (clean_vec capN l))) /\
+    (r = ROk \/ r = RErr EDecode /\ a' = a).
+  Proof.
+    intros Hd H32. cbn [Spec.spec_ok]. destruct (Nat.leb_spec nregs d) as [Hle|_]; [lia|].
+    intros [S C]. split; [|split; [exact (C H32)|]].
+    - split.
+      + intros ->. destruct S as [(l & Es & Hv & Hl & _)|[D _]]; [eauto|discriminate D].
+      + intros (l & Es & Hv & Hl). apply (C H32 l Es Hv Hl).
+    - destruct S as [(l & _ & _ & _ & -> & _)|[-> ->]]; auto.
+  Qed.
+
+  (* hence the specification of decoding is functional (below the offset limit) *)
+  Lemma spec_det_ssz_list (a : sregs) d b r1 a1 r2 a2 : (efixed ek = None -> lenN b < 2 ^ 32) ->
+    spec_ok a (OSszList d b) r1 a1 -> spec_ok a (OSszList d b) r2 a2 -> r1 = r2 /\ a1 = a2.
+  Proof.
+    intros H32. cbn [Spec.spec_ok]. destruct (nregs <=? d)%nat; [unfold Spec.bad; intros [-> ->] [-> ->]; auto|].
+    intros [[(l1 & E1 & V1 & L1 & -> & ->)|[-> ->]] C1] [[(l2 & E2 & V2 & L2 & -> & ->)|[-> ->]] C2].
+    - destruct (C2 H32 l1 E1 V1 L1) as [_ ->]. auto.
+    - destruct (C2 H32 l1 E1 V1 L1) as [D _]. discriminate D.
+    - destruct (C1 H32 l2 E2 V2 L2) as [D _]. discriminate D.
+    - auto.
+  Qed.
+  Lemma spec_det_ssz_vec (a : sregs) d b r1 a1 r2 a2 : (efixed ek = None -> lenN b < 2 ^ 32) ->
+    spec_ok a (OSszVec d b) r1 a1 -> spec_ok a (OSszVec d b) r2 a2 -> r1 = r2 /\ a1 = a2.
+  Proof.
+    intros H32. cbn [Spec.spec_ok]. destruct (nregs <=? d)%nat; [unfold Spec.bad; intros [-> ->] [-> ->]; auto|].
+    intros [[(l1 & E1 & V1 & L1 & -> & ->)|[-> ->]] C1] [[(l2 & E2 & V2 & L2 & -> & ->)|[-> ->]] C2].
+    - destruct (C2 H32 l1 E1 V1 L1) as [_ ->]. auto.
+    - destruct (C2 H32 l1 E1 V1 L1) as [D _]. discriminate D.
+    - destruct (C1 H32 l2 E2 V2 L2) as [D _]. discriminate D.
+    - auto.
+  Qed.
 
   Lemma spec_det_bulk (a : sregs) i kvs r1 a1 r2 a2 :
     spec_ok a (OBulk i kvs) r1 a1 -> spec_ok a (OBulk i kvs) r2 a2 -> r1 = r2 /\ a1 = a2.
@@ -121,6 +204,8 @@ Section SpecFacts.
   Proof.
     intros Hd H1 H2. destruct o; cbn [det_op collection_op] in Hd; try discriminate Hd;
       try (apply (spec_det_bulk _ _ _ _ _ _ _ H1 H2));
+      try (apply N.ltb_lt in Hd; apply (spec_det_ssz_list _ _ _ _ _ _ _ (fun _ => Hd) H1 H2));
+      try (apply N.ltb_lt in Hd; apply (spec_det_ssz_vec _ _ _ _ _ _ _ (fun _ => Hd) H1 H2));
       cbn [Spec.spec_ok] in H1, H2; unfold write_spec, ctor, with_list in H1, H2; unfold with_reg, Spec.bad in H1, H2;
       spec_inv; subst; try discriminate; auto.
   Qed.
@@ -396,7 +481,8 @@ Section Refine.
   Qed.
 
   (* ================= determinism of abstract runs ================= *)
-  (* the specification answers functionally at (a, o): always, except for the SSZ decoders and for `==` on dirty handles *)
+  (* the specification answers functionally at (a, o): always, except for SSZ decoding of inputs of 4 GiB or more
+     and for `==` on dirty handles *)
   Definition det_at (a : sregs) (o : op) : Prop :=
     det_op o = true \/
     exists i j, o = OEq i j /\ (forall x, aget a i = Some x -> a_pend x = false) /\
@@ -448,8 +534,9 @@ Section TwoMaps.
   Notation spec_run_det := (spec_run_det ek H capN vec_based valid).
 
   (* both implementations answer every history within the same specification; wherever the specification is
-     functional along (one of) the abstract runs — in particular for histories without `==` and SSZ decoding,
-     or with `==` only between clean handles — the answers are identical *)
+     functional along (one of) the abstract runs — in particular for histories without `==` (SSZ decoding of
+     inputs below 4 GiB included: its specification is deterministic), or with `==` only between clean
+     handles — the answers are identical *)
   Theorem maps_unobservable os : Forall (op_ok ek valid) os ->
     exists rs1 s1 st1 a1 rs2 s2 st2 a2,
       model_run ek M1 H capN vec_based init_sys init_state os = Some (rs1, s1, st1) /\
@@ -480,6 +567,12 @@ Print Assumptions spec_err_frame.
 Print Assumptions step_regs_frame.
 Print Assumptions clone_allocates_nothing.
 Print Assumptions spec_det.
+Print Assumptions spec_ssz_list_err.
+Print Assumptions spec_ssz_vec_err.
+Print Assumptions spec_ssz_list_iff.
+Print Assumptions spec_ssz_vec_iff.
+Print Assumptions spec_det_ssz_list.
+Print Assumptions spec_det_ssz_vec.
 Print Assumptions spec_det_eq.
 Print Assumptions spec_run_det_unique.
 Print Assumptions maps_unobservable.
